@@ -52,6 +52,8 @@ def path_nodes(tp, route):
 # --------------------------------------------------------------------------- random C03 scripts
 
 def random_send_script(rng):
+    if rng.random() < 0.2:
+        return stale_known_script(rng)
     kind = rng.choice(["line", "line", "fan", "fan", "fan", "fan2", "par"])
     n = {"line": rng.choice([2, 3, 4, 4, 5]), "fan": rng.choice([1, 2, 2, 3]), "fan2": rng.choice([1, 2]), "par": rng.choice([2, 3])}[kind]
     tp = topo(kind, n)
@@ -118,11 +120,14 @@ def random_send_script(rng):
     if stale_run:
         ops += [{"op": "pump"}] * rng.choice([0, 1, 1]) + [{"op": "reconnect_all"}, {"op": "pump"}, {"op": "save", "node": 0}]
         ops += [o for o in body(rng, tp, pays, rng.randint(2, 14)) if o["op"] not in ("send", "save", "restart", "hold")]
-        ops += [{"op": "restart", "node": 0, "use": "stale"}, {"op": "settle"}]
-        return {"cfg": tp["cfg"], "ops": ops}
+        ops += [{"op": "restart", "node": 0, "use": "stale"}]
+        return {"cfg": tp["cfg"], "ops": ops + after_stale(rng, tp, pays)}
     ops += body(rng, tp, pays, rng.randint(4, 22))
+    if any(o["op"] == "restart" and o.get("use") == "stale" for o in ops):
+        # (if that restart was executed) channels were closed: the run is judged once the chain has settled
+        ops.append({"op": "settle_chain"})
     ops.append({"op": "settle"})
-    if rng.random() < 0.3:
+    if rng.random() < 0.3 and ops[-2]["op"] != "settle_chain":
         # after the outcome: idempotency timeout, late duplicate, restart
         for _ in range(rng.choice([1, 8, 9])):
             ops.append({"op": "tick", "node": 0})
@@ -134,6 +139,92 @@ def random_send_script(rng):
         ops += body(rng, tp, pays, rng.randint(2, 8))
         ops.append({"op": "settle"})
     return {"cfg": tp["cfg"], "ops": ops}
+
+
+def after_stale(rng, tp, pays):
+    """What follows a restart from a stale snapshot (LDK has closed the channels whose monitors were ahead):
+    the peers come back, the recipient answers or not, and the chain settles."""
+    ops = [{"op": "reconnect_all"}] if rng.random() < 0.85 else []
+    ops += [{"op": "pump"}] * rng.choice([0, 1, 1])
+    for p in pays:
+        r = rng.random()
+        if r < 0.7:
+            tgt = {"reg": p["reg"]} if p["reg"] is not None else {"fresh": p["fresh"], "node": tp["dst"]}
+            ops.append(dict({"op": "claim" if r < 0.55 else "failback"}, **tgt))
+            if rng.random() < 0.5:
+                ops.append({"op": "pump"})
+    if rng.random() < 0.2:
+        ops += body(rng, tp, pays, rng.randint(1, 5))
+        ops = [o for o in ops if o["op"] not in ("send", "save", "restart", "hold")]
+    return ops + [{"op": "settle_chain"}, {"op": "settle"}]
+
+
+def stale_known_script(rng):
+    """The payer restarts from a manager snapshot that knows a payment but is older than the monitors:
+    written after the first attempt of a payment with automatic retries (the retry HTLC was sent afterwards),
+    or before / after the send of a multi-path payment some of whose parts have moved on since."""
+    variant = rng.choice(["retry", "retry", "mpp_before", "mpp_after", "single_after"])
+    ops = []
+    if variant == "retry":
+        kind = rng.choice(["fan", "fan", "fan2"])
+        n = rng.choice([2, 2, 3])
+        tp = topo(kind, n)
+        dst = tp["dst"]
+        amt = rng.choice([1, 2, 3, 5]) * MSAT + rng.randint(0, 999) * 1000
+        ops.append({"op": "reg", "node": dst, "reg": 1, "amt": amt, "expiry": 3600, "method": rng.choice(["user", "ldk"])})
+        first = rng.randrange(n)                 # the branch of the first attempt: the only one whose first hop is up
+        nds = path_nodes(tp, tp["routes"][first])
+        j = rng.randrange(1, len(nds) - 1)       # the hop that cannot forward
+        others = [b for b in range(n) if b != first]
+        for b in others:
+            ops.append({"op": "disconnect", "a": 0, "b": path_nodes(tp, tp["routes"][b])[1]})
+        ops.append({"op": "disconnect", "a": nds[j], "b": nds[j + 1]})
+        ops.append({"op": "send", "from": 0, "id": 1, "reg": 1, "auto": True, "to": dst, "amt": amt, "retries": rng.choice([1, 1, 2])})
+        pays = [{"pid": 1, "reg": 1, "rts": list(range(n)), "send": None}]
+        when = rng.choice(["sent", "sent", "sent", "arrived"])
+        if when == "sent":
+            ops.append({"op": "save", "node": 0})
+        for b in others:
+            ops += [{"op": "reconnect", "a": 0, "b": path_nodes(tp, tp["routes"][b])[1]}, {"op": "pump", "links": [[0, path_nodes(tp, tp["routes"][b])[1]]]}]
+        if when == "arrived":
+            ops += [{"op": "pump", "links": [[nds[i], nds[i + 1]] for i in range(j)], "barrier": 0}, {"op": "save", "node": 0}]
+        # the failure comes back, the retry leaves over another branch
+        ops.append({"op": "pump", "links": [[nds[i], nds[i + 1]] for i in range(j)]})
+        r = rng.random()
+        if r < 0.6:
+            ops.append({"op": "pump"})
+        elif r < 0.8:
+            ops += body(rng, tp, pays, rng.randint(1, 4))
+    else:
+        kind = rng.choice(["fan", "fan", "fan2", "par"])
+        n = rng.choice([2, 2, 3])
+        tp = topo(kind, n)
+        dst = tp["dst"]
+        k = 1 if variant == "single_after" else rng.randint(2, n)
+        rts = rng.sample(range(n), k)
+        amts = [rng.choice([1, 2, 3, 5]) * MSAT + rng.randint(0, 999) * 1000 for _ in rts]
+        if rng.random() < 0.1:
+            amts[0] = rng.randint(2, 300) * 1000      # a dust-sized part
+        ops.append({"op": "reg", "node": dst, "reg": 1, "amt": sum(amts), "expiry": 3600, "method": rng.choice(["user", "ldk"])})
+        send = {"op": "send", "from": 0, "id": 1, "reg": 1, "paths": [tp["routes"][r] for r in rts], "amts": amts}
+        pays = [{"pid": 1, "reg": 1, "rts": rts, "send": send}]
+        if variant == "mpp_before":
+            ops += [{"op": "save", "node": 0}, send]
+        else:
+            ops += [send, {"op": "save", "node": 0}]
+        if rng.random() < 0.3 and kind != "par":
+            # one part cannot be forwarded
+            nds = path_nodes(tp, tp["routes"][rts[0]])
+            j = rng.randrange(1, len(nds) - 1)
+            ops += [{"op": "disconnect", "a": nds[j], "b": nds[j + 1]}, {"op": "pump"}]
+        r = rng.random()
+        if r < 0.5:
+            ops.append({"op": "pump"})
+        elif r < 0.9:
+            ops += body(rng, tp, pays, rng.randint(1, 6))
+    ops = [o for o in ops if o["op"] not in ("restart", "hold", "abandon") and not (o["op"] == "save" and ops.index(o) > 0 and False)]
+    ops.append({"op": "restart", "node": 0, "use": "stale"})
+    return {"cfg": tp["cfg"], "ops": ops + after_stale(rng, tp, pays)}
 
 
 def body(rng, tp, pays, steps):
@@ -261,6 +352,7 @@ def compile_send_script(s, rng):
     def path(k):
         return [k, K + k, 2 * K + k] if deep else [k, K + k]
     ops = [{"op": "hold", "node": 0, "on": True}]
+    stale = False
     base, regs, first_reg, cur = {}, {}, {}, {}
     for o in s["ops"]:
         t = o["op"]
@@ -278,8 +370,18 @@ def compile_send_script(s, rng):
                 ops.append(r)
                 regs[(p, n)] = 10 * p + n
                 first_reg.setdefault(p, 10 * p + n)
-            ops.append({"op": "send", "from": 0, "id": p, "reg": regs[(p, n)],
-                        "paths": [path(k) for k in range(1, n + 1)], "amts": amts})
+            if o.get("retries", 0) > 0:
+                # a payment with automatic retries, routed by the payer's router: the first attempt goes over
+                # branch 1 (the first hops of the other branches are down while it is sent)
+                for j in range(2, K + 1):
+                    ops.append({"op": "disconnect", "a": 0, "b": j})
+                ops.append({"op": "send", "from": 0, "id": p, "reg": regs[(p, n)], "auto": True, "to": D, "amt": amts[0],
+                            "retries": o["retries"]})
+                for j in range(2, K + 1):
+                    ops += [{"op": "reconnect", "a": 0, "b": j}, {"op": "pump", "links": [[0, j]], "barrier": 0}]
+            else:
+                ops.append({"op": "send", "from": 0, "id": p, "reg": regs[(p, n)],
+                            "paths": [path(k) for k in range(1, n + 1)], "amts": amts})
             cur[p] = regs[(p, n)]
         elif t == "arrive":
             ops.append({"op": "pump", "links": links(o["k"]), "barrier": 0})
@@ -307,8 +409,15 @@ def compile_send_script(s, rng):
             ops.append({"op": "save", "node": 0})
         elif t == "restart":
             ops += [{"op": "restart", "node": 0, "use": "last"}, {"op": "reconnect_all"}, {"op": "pump", "barrier": 0}]
+        elif t == "restart_stale":
+            # LDK closes the channels whose monitors are ahead; the peers come back (and learn of the closes)
+            stale = True
+            ops += [{"op": "restart", "node": 0, "use": "stale"}, {"op": "reconnect_all"}, {"op": "pump", "barrier": 0}]
         elif t == "abandon":
             ops.append({"op": "abandon", "node": 0, "id": o["p"]})
+    if stale:
+        # the chain settles: commitments confirm, HTLC outputs are claimed with the preimage or time out
+        ops.append({"op": "settle_chain"})
     ops.append({"op": "settle"})
     return {"cfg": {"topo": "fan2" if deep else "fan", "n": K}, "ops": ops}
 
@@ -478,7 +587,8 @@ def compile_recv_script(s, rng, consts):
 SPECS = {
     "C03": {"trace": "PaySendTrace", "other": "PayRecvTrace", "mc": "PaySendMC",
             "actions": ["MObs", "MSend", "MAbandon", "MHandle", "MTick", "MSave", "MRestart", "MArrive", "MFailHop",
-                        "MClaim", "MFailR", "MDeliver", "MDup", "MCommit", "MQuiet"]},
+                        "MClaim", "MFailR", "MDeliver", "MDup", "MCommit", "MQuiet",
+                        "MRestartStale", "MConfirm", "MChainClaim", "MChainTimeout"]},
     "C04": {"trace": "PayRecvTrace", "other": None, "mc": "PayRecvMC",
             "actions": ["MObs", "MPart", "MTick", "MClaim", "MFailBack", "MQuiet"]},
 }
